@@ -208,7 +208,7 @@ ERR_TYPES = ("std::io::Error", "<S as sink::Sink>::Error", "searcher::ConfigErro
              "<M as grep_matcher::Matcher>::Error")
 # (function, callee) exceptions, one line of reason each
 ERR_EXCEPTIONS = {
-    ("grep_searcher::searcher::Searcher::fill_multi_line_buffer_from_file", "core::result::Result::unwrap_or"):
+    ("grep_searcher::searcher::Searcher::fill_multi_line_buffer_from_file", "std::fs::File::metadata"):
         "file.metadata() is a capacity hint; failure means 'reserve nothing'",
 }
 
@@ -240,8 +240,9 @@ def err_rule(ctx, r):
             v, d = classify_result(f, c)
             if v in ("returned", "try", "matched-used"):
                 r.ok(key, "%s %s" % (v, d), fn=f, nontrivial=(v != "returned"))
-            elif v == "swallowed" and any((f.path, "core::result::Result::" + d) == k2 for k2 in ERR_EXCEPTIONS):
-                r.ok(key, "table exception: %s" % ERR_EXCEPTIONS[(f.path, "core::result::Result::" + d)], fn=f)
+            elif v in ("swallowed", "matched-dropped") and (f.path, c.path) in ERR_EXCEPTIONS:
+                # (the exception names the producer, not the spelling of the fallback: unwrap_or, a match, map_or)
+                r.ok(key, "table exception: %s" % ERR_EXCEPTIONS[(f.path, c.path)], fn=f)
             else:
                 r.bad(key, "Result of %s at %s is %s (%s): an error would be lost" % (c.path, c.loc, v, d),
                       fn=f, loc=c.loc, construct=c.path)
